@@ -12,14 +12,14 @@ open TarpcModel
 
 /-- Every panic in the event trace of a script run from a state satisfying the invariant is the
 `DelayQueue` range panic and happens at or after `panicFreeNs` (if the clamp fits). -/
-theorem trace_panic_ok (ops : List SOp) : ∀ (c : Sys) (born : Nat → Nat) (w : Bool), SInv w c.now born c.s →
+theorem trace_panic_ok (ops : List SOp) : ∀ (c : Sys) (w : Bool), SInv w c.now c.s →
     ∀ ep m, SEv.obs (.panic ep m) ∈ trace c ops → PanicOk (c.now + advSum ops) m := by
   induction ops with
-  | nil => intro c born w _ ep m hm; simp [trace] at hm
+  | nil => intro c w _ ep m hm; simp [trace] at hm
   | cons op ops ih =>
-    intro c born w h ep m hm
-    have h0 : SInv false c.now born ({ c with s := { c.s with obs := [] } } : Sys).s := h.clear_obs
-    obtain ⟨born1, h1, _, _⟩ := sinv_applyOp ({ c with s := { c.s with obs := [] } } : Sys) op h0
+    intro c w h ep m hm
+    have h0 : SInv false c.now ({ c with s := { c.s with obs := [] } } : Sys).s := h.clear_obs
+    have h1 := sinv_applyOp ({ c with s := { c.s with obs := [] } } : Sys) op h0
     have hnow : (applyOp { c with s := { c.s with obs := [] } } op).now = c.now + opAdv op := applyOp_now _ op
     simp only [trace, stepOp, List.mem_cons, List.mem_append, List.mem_map, reduceCtorEq, false_or] at hm
     rcases hm with ⟨o, ho, heq⟩ | hm
@@ -27,7 +27,7 @@ theorem trace_panic_ok (ops : List SOp) : ∀ (c : Sys) (born : Nat → Nat) (w 
       have := h1.panics ep m (List.mem_reverse.mp ho)
       rw [hnow] at this
       exact this.mono (by simp only [advSum]; omega)
-    · have := ih _ born1 false h1.clear_obs ep m hm
+    · have := ih _ false h1.clear_obs ep m hm
       simp only [hnow] at this
       exact this.mono (by simp only [advSum]; omega)
 
@@ -36,7 +36,7 @@ theorem trace_no_panic (hf : ClampFits) (limit : Option Nat) (respCap tcap : Nat
     (hT : advSum ops < panicFreeNs) (t : TaskId) (site : String) :
     SEv.obs (.panic t site) ∉ trace (initSys limit respCap tcap coupled) ops := by
   intro hm
-  have := (trace_panic_ok ops (initSys limit respCap tcap coupled) (fun _ => 0) false
+  have := (trace_panic_ok ops (initSys limit respCap tcap coupled) false
     (sinv_init false limit respCap tcap coupled) t site hm).2 hf
   have h0 : (initSys limit respCap tcap coupled).now = 0 := rfl
   omega
@@ -47,8 +47,7 @@ theorem reach_panic_ok (limit : Option Nat) (respCap tcap : Nat) (coupled : Bool
     (t : TaskId) (site : String)
     (hm : Obs.panic t site ∈ (ops.foldl applyOp (initSys limit respCap tcap coupled)).s.obs) :
     PanicOk (advSum ops) site := by
-  obtain ⟨born, h, _⟩ := sinv_reach false limit respCap tcap coupled ops
-  have := h.panics t site hm
+  have := (sinv_reach false limit respCap tcap coupled ops).panics t site hm
   rw [foldl_applyOp_now] at this
   have h0 : (initSys limit respCap tcap coupled).now = 0 := rfl
   rw [h0, Nat.zero_add] at this
